@@ -76,13 +76,17 @@ def main():
     if "--store" in sys.argv and res.get("demo_clean_rc") == 0 and res.get("demo_patched_rc") not in (0, None) and res.get("tests_ok"):
         dst = os.path.join(VERIF, "seeded", sid)
         os.makedirs(dst, exist_ok=True)
-        shutil.copy(os.path.join(src, "patch.diff"), os.path.join(dst, "patch.diff"))
-        with open(os.path.join(dst, "demo.py"), "w") as f:
-            f.write("".join(ln for ln in open(os.path.join(src, "demo.py")) if "__file__.startswith" not in ln))
+        same = os.path.realpath(src) == os.path.realpath(dst)  # refreshing a stored seed in place
+        if not same:
+            shutil.copy(os.path.join(src, "patch.diff"), os.path.join(dst, "patch.diff"))
+            demo_src = "".join(ln for ln in open(os.path.join(src, "demo.py")) if "__file__.startswith" not in ln)
+            with open(os.path.join(dst, "demo.py"), "w") as f:
+                f.write(demo_src)
         notes = ""
         if os.path.exists(os.path.join(src, "notes.md")):
             notes = open(os.path.join(src, "notes.md")).read()
-            shutil.copy(os.path.join(src, "notes.md"), os.path.join(dst, "notes.md"))
+            if not same:
+                shutil.copy(os.path.join(src, "notes.md"), os.path.join(dst, "notes.md"))
         meta_path = os.path.join(dst, "meta.json")
         meta = json.load(open(meta_path)) if os.path.exists(meta_path) else {}
         meta.update({
